@@ -69,6 +69,15 @@ pub fn cases(f: &mut dyn FnMut(Value) -> bool) {
             }
         }
     }
+    // zero-sized cells: every Vec<()> has the same (dangling) data pointer and no bytes to compare,
+    // so equality can only come from the dimensions
+    for a in shapes(4) {
+        for b in shapes(4) {
+            if !f(json!({"op": "eqzst", "a": [a.0, a.1], "b": [b.0, b.1]})) {
+                return;
+            }
+        }
+    }
     let arrs = small_arrays();
     for a in &arrs {
         for b in &arrs {
@@ -271,6 +280,22 @@ fn hash_of<T: Hash>(t: &T) -> u64 {
 }
 
 pub fn run(case: &Value) -> Res {
+    if js(&case["op"]) == "eqzst" {
+        let a = (ju(&case["a"][0]), ju(&case["a"][1]));
+        let b = (ju(&case["b"][0]), ju(&case["b"][1]));
+        let ta: TooDee<()> = TooDee::from_vec(a.0, a.1, vec![(); a.0 * a.1]);
+        let tb: TooDee<()> = TooDee::from_vec(b.0, b.1, vec![(); b.0 * b.1]);
+        let model_eq = a == b;
+        check_eq("zero-sized cells: a == b", &model_eq, &(ta == tb))?;
+        check_eq("zero-sized cells: a != b", &!model_eq, &(ta != tb))?;
+        if model_eq {
+            check_eq("zero-sized cells: hash(a) == hash(b)", &true, &(hash_of(&ta) == hash_of(&tb)))?;
+        }
+        let ca = ta.clone();
+        check_eq("zero-sized cells: a.clone() == a", &true, &(ca == ta))?;
+        check_eq("zero-sized cells: a.clone() dims", &a, &(ca.num_cols(), ca.num_rows()))?;
+        return Ok(());
+    }
     if js(&case["op"]) == "eq" {
         let get = |v: &Value| {
             let c = ju(&v["cols"]);
